@@ -19,7 +19,7 @@ claimed = {
          "TLC-enumerated tsr and dispatch vectors replayed on the real router", "5"),
  "C09": (MC, "TLC exhausts the host stage of FoxMatch over tables mixing hostname and path-only patterns x hosts (exact, port, trailing dot, extended, truncated, literals, empty); vectors replayed through every entry point.",
          "TLC-enumerated hostname vectors replayed on the real router", "5"),
- "C05": (MC, "TLC explores every interleaving of writer programs (one-call writes, multi-route transactions, commits and aborts) with lock-free readers at the granularity of the implementation's verification points and checks MutualExclusion, NoLostUpdate, AppendOnly, StepwiseSerial, MonotoneReads; negative variants (load before lock, unlock before store) must be refuted. Every edge of the schedule graph is replayed on real goroutines parked at the hook gates; published state and call results are compared after every step.",
+ "C05": (MC, "TLC explores every interleaving of writer programs (one-call writes, multi-route transactions, commits and aborts) with lock-free readers at the granularity of the implementation's verification points and checks MutualExclusion, NoLostUpdate, AppendOnly, StepwiseSerial, MonotoneReads; negative variants (load before lock, unlock before store) must be refuted. Every edge of the schedule graph is replayed on real goroutines parked at the hook gates; published state and call results are compared after every step. The reduced protocol spec/FoxProto.tla has its invariant proved inductive with TLAPS for any number of writers and versions (and checked with Apalache); TLC checks that FoxConc refines it.",
          "TLC schedule graph replayed on real goroutines through gate hooks (+ race-detector stress validated by a trace specification)", "5"),
  "C06": (MC, "TLC checks ReadsNeverWait (ENABLED of every read step in every reachable state, whoever holds the lock) and ReaderProgress under fairness on reader steps only; every reader edge of the schedule graph is replayed through ten read entry points while the writers stay parked at every verification point, and a blocked second writer must not pass the lock.",
          "parked-writer schedules from TLC replayed through every read entry point", "5"),
